@@ -1,6 +1,7 @@
 import KoordVerif.Common.Proto
 import KoordVerif.Model.C07
 import KoordVerif.Model.C07Hist
+import KoordVerif.Model.C07RO
 /-
 Driver for C07.  One case = one history on one node; three device types (0 gpu, 1 rdma, 2 fpga),
 three resource dimensions per type.  A resource list is 3 tokens, `_` = key absent.
@@ -18,6 +19,25 @@ three resource dimensions per type.  A resource list is 3 tokens, `_` = key abse
      output line.  code 0: add pod a minor b amount c; 1: rem pod a minor b amount c; 2: refresh totals a b of minors 0 1;
      3: allocate (request b per device, desired 1, nil scorer) and commit the result for pod a.
      output: xh <t f u of minor 0> <t f u of minor 1> | (<k> (<minor> <amount>)*k for pod 1, pod 2) | <wf> <exact> <sched> | <chosen minor or -1 per alloc>
+  events harness (device type 0 only; <shape> ::= 0 typed object | 1 tombstone by value | 2 POINTER to a tombstone |
+      3 tombstone holding another type | 4 nil | 5 object of another type — Model/C07RO.lean `Shape`):
+  evadd <shape> <pod> <assigned> <terminated> <groups>                                   onPodAdd(obj)
+  evupd <shapeOld> <shapeNew> <pod> <oldAssigned> <newAssigned> <newTerminated> <groups old> <groups new>   onPodUpdate
+  evdel <shape> <pod> <assigned> <groups>                                                onPodDelete(obj)
+  rvadd <shape> <rsv> <valid> <active> <assigned> <terminated> <groups>                  reservation handler OnAdd
+  rvupd <shO> <shN> <rsv> (<valid> <active> <assigned> <terminated>)old (…)new <groups old> <groups new>   OnUpdate
+  rvdel <shape> <rsv> <valid> <active> <assigned> <terminated> <groups>                  OnDelete
+     (sevOps / revOps decide which ledger ops happen)
+  READ-ONLY steps (the model threads the ledger through them; `readonly_steps_preserve_state`):
+  robegin                                            a new scheduling cycle (fresh preFilterState)
+  rorm <pod> <hasRsv> <rsv>    roadd <pod> <hasRsv> <rsv>      Plugin.RemovePod / AddPod (rsv: what the reservation cache names)
+  rorst <nm> (<rsv> <k> owner*k)*nm <nu> (<rsv> <k> owner*k)*nu     PreRestoreReservation + RestoreReservation
+  rofil <hasminors> <nm> m* <desired> q q q          Plugin.Filter of the preemptor (no restore state): verdict
+     after every ro line: the full ledger again (d / p / x lines), then
+       rorm / roadd:  q <k> (<minor> v v v)*   qr <rsv> <k> (<minor> v v v)*  (non-empty reservations, by id)
+       rorst:         ra|rb|rc <0 matched | 1 unmatched> <rsv> <k> (…)*   allocatable / allocated / remained, in order;
+                      rm <0 mergedMatchedAllocatable | 1 mergedMatchedAllocated | 2 mergedUnmatchedUsed> <k> (…)*
+       rofil:         filter <0|1>
 After ref/add/rem/upd/del: the ledger, value-based (missing = 0), only devices with a non-zero entry:
   d <type> <minor> <total>*3 <free>*3 <used>*3        p <type> <pod> <k> (<minor> v v v)*
 then  x <wf> <exact> <sched>   the history predicates so far (histWFB / histExact / histSched of Model/C07Hist.lean, all types)
@@ -123,13 +143,14 @@ structure DState where
   wf    : Bool
   exact : Bool
   sched : Bool
+  cyc   : Cycle := Cycle.empty   -- the running scheduling cycle of the events harness (device type 0)
 
 /-- apply ledger ops to one device type, evaluating `opWFB` / `opExact` on the way -/
 def applyOps (d : DState) (t : Nat) (ops : List Op) : DState :=
   if t ≥ ntypes then d else
   ops.foldl (fun d op =>
     let s := nodeGet d.node t
-    { node := nodeSet d.node t (step s op), wf := d.wf && opWFB op, exact := d.exact && opExact s op,
+    { d with node := nodeSet d.node t (step s op), wf := d.wf && opWFB op, exact := d.exact && opExact s op,
       sched := d.sched && schedOK s op }) d
 
 def applyAllocs (d : DState) (p : Nat) (add : Bool) (groups : List (Nat × List (Nat × RL))) : DState :=
@@ -165,6 +186,53 @@ def viewOf (s : TState) : Option View → TState × List String
     let fd := calcFree s v.preempt v.required
     let hyp := nodupB (fd.map (·.1)) && amountsOK fd
     (w, dumpT "v" false 0 w ++ (if hyp then [] else ["viewhyp 0"]))
+
+
+def shapeOf? : Nat → Option Shape
+  | 0 => some .obj | 1 => some .tomb | 2 => some .ptrTomb | 3 => some .tombOther | 4 => some .nil | 5 => some .other
+  | _ => none
+
+def pShape : P Shape := do
+  match shapeOf? (← pNat) with
+  | some s => pure s
+  | none => failure
+
+def pBool : P Bool := do let n ← pNat; pure (n != 0)
+
+def showDR (d : DevRes) : String :=
+  let ms := sortU (d.map (·.1))
+  s!"{ms.length}" ++ String.join (ms.map (fun m => s!" {m} {showVals (drGetD d m)}"))
+
+def dryLines (d : Dry) : List String :=
+  [s!"q {showDR d.pre}"] ++
+  (sortU (d.inRR.map (·.1))).filterMap (fun r =>
+    let x := rrGet d.inRR r
+    if x.isEmpty then none else some s!"qr {r} {showDR x}")
+
+def reusableLines (side : Nat) (l : List Reusable) : List String :=
+  l.flatMap fun a => [s!"ra {side} {a.rsv} {showDR a.allocatable}", s!"rb {side} {a.rsv} {showDR a.allocated}",
+                      s!"rc {side} {a.rsv} {showDR a.remained}"]
+
+def restoredLines (r : Restored) : List String :=
+  reusableLines 0 r.matched ++ reusableLines 1 r.unmatched ++
+  [s!"rm 0 {showDR r.mergedMatchedAllocatable}", s!"rm 1 {showDR r.mergedMatchedAllocated}",
+   s!"rm 2 {showDR r.mergedUnmatchedUsed}"]
+
+def pRsvList : P (List (Nat × List Nat)) := do
+  let n ← pNat
+  pRep n (do let r ← pNat; let os ← pNats; pure (r, os))
+
+/-- a read-only step on device type 0: the ledger is whatever `roStep` returns (it is the identity on it) -/
+def applyRo (d : DState) (st : RoStep) : DState :=
+  let (s', c') := roStep (nodeGet d.node 0, d.cyc) st
+  { d with node := nodeSet d.node 0 s', cyc := c' }
+
+def podObjOf (groups : List (Nat × List (Nat × RL))) (t : Nat) (assigned terminated : Bool) : PodObj :=
+  { assigned := assigned, terminated := terminated, alloc := groupGet groups t }
+
+/-- shaped events on every device type -/
+def applyShaped (d : DState) (f : Nat → List Op) : DState :=
+  (List.range ntypes).foldl (fun d t => applyOps d t (f t)) d
 
 def runLine (d : DState) (line : String) : DState × List String :=
   let n := d.node
@@ -265,6 +333,77 @@ def runLine (d : DState) (line : String) : DState × List String :=
             let ms := sortU (e.2.map (·.1))
             s!"{ms.length}" ++ String.join (ms.map (fun m => s!" {m} {drVal e.2 m 0}"))
         (d', [s!"xh {dev 0} {dev 1} | {pod 1} {pod 2} | {if d'.wf then 1 else 0} {if d'.exact then 1 else 0} {if d'.sched then 1 else 0} | {" ".intercalate allocs}"])
+      | none => (d, ["bad-op"])
+    else if kind = "evadd" then
+      match (do let sh ← pShape; let p ← pNat; let a ← pBool; let tm ← pBool; let g ← pGroups; pEnd; pure (sh, p, a, tm, g)).run' rest with
+      | some (sh, p, a, tm, g) =>
+        let d' := applyShaped d (fun t => sevOps (.podAdd sh p (podObjOf g t a tm)))
+        (d', dump d'.node ++ [flagLine d'])
+      | none => (d, ["bad-op"])
+    else if kind = "evupd" then
+      match (do
+          let so ← pShape; let sn ← pShape; let p ← pNat; let oa ← pBool; let na ← pBool; let nt ← pBool
+          let go ← pGroups; let gn ← pGroups; pEnd
+          pure (so, sn, p, oa, na, nt, go, gn)).run' rest with
+      | some (so, sn, p, oa, na, nt, go, gn) =>
+        let d' := applyShaped d (fun t => sevOps (.podUpdate so sn p (podObjOf go t oa false) (podObjOf gn t na nt)))
+        (d', dump d'.node ++ [flagLine d'])
+      | none => (d, ["bad-op"])
+    else if kind = "evdel" then
+      match (do let sh ← pShape; let p ← pNat; let a ← pBool; let g ← pGroups; pEnd; pure (sh, p, a, g)).run' rest with
+      | some (sh, p, a, g) =>
+        let d' := applyShaped d (fun t => sevOps (.podDelete sh p (podObjOf g t a false)))
+        (d', dump d'.node ++ [flagLine d'])
+      | none => (d, ["bad-op"])
+    else if kind = "rvadd" || kind = "rvdel" then
+      match (do
+          let sh ← pShape; let p ← pNat; let v ← pBool; let ac ← pBool; let a ← pBool; let tm ← pBool
+          let g ← pGroups; pEnd
+          pure (sh, p, v, ac, a, tm, g)).run' rest with
+      | some (sh, p, v, ac, a, tm, g) =>
+        let d' := applyShaped d (fun t =>
+          let r : RsvObj := { valid := v, active := ac, pod := podObjOf g t a tm }
+          revOps (if kind = "rvadd" then .rsvAdd sh p r else .rsvDelete sh p r))
+        (d', dump d'.node ++ [flagLine d'])
+      | none => (d, ["bad-op"])
+    else if kind = "rvupd" then
+      match (do
+          let so ← pShape; let sn ← pShape; let p ← pNat
+          let ov ← pBool; let oac ← pBool; let oa ← pBool; let ot ← pBool
+          let nv ← pBool; let nac ← pBool; let na ← pBool; let nt ← pBool
+          let go ← pGroups; let gn ← pGroups; pEnd
+          pure (so, sn, p, (ov, oac, oa, ot), (nv, nac, na, nt), go, gn)).run' rest with
+      | some (so, sn, p, (ov, oac, oa, ot), (nv, nac, na, nt), go, gn) =>
+        let d' := applyShaped d (fun t =>
+          revOps (.rsvUpdate so sn p { valid := ov, active := oac, pod := podObjOf go t oa ot }
+                                     { valid := nv, active := nac, pod := podObjOf gn t na nt }))
+        (d', dump d'.node ++ [flagLine d'])
+      | none => (d, ["bad-op"])
+    else if kind = "robegin" then
+      if rest.isEmpty then
+        let d' := { d with cyc := Cycle.empty }
+        (d', dump d'.node ++ [flagLine d'])
+      else (d, ["bad-op"])
+    else if kind = "rorm" || kind = "roadd" then
+      match (do let p ← pNat; let hr ← pBool; let r ← pNat; pEnd; pure (p, hr, r)).run' rest with
+      | some (p, hr, r) =>
+        let rsv := if hr then some r else none
+        let d' := applyRo d (if kind = "rorm" then .removePod p rsv else .addPod p rsv)
+        (d', dump d'.node ++ [flagLine d'] ++ dryLines d'.cyc.dry)
+      | none => (d, ["bad-op"])
+    else if kind = "rorst" then
+      match (do let m ← pRsvList; let u ← pRsvList; pEnd; pure (m, u)).run' rest with
+      | some (m, u) =>
+        let d' := applyRo d (.restore m u)
+        (d', dump d'.node ++ [flagLine d'] ++ (match d'.cyc.restored with | some r => restoredLines r | none => []))
+      | none => (d, ["bad-op"])
+    else if kind = "rofil" then
+      match (do let hm ← pBool; let ms ← pNats; let desired ← pNat; let req ← pRL; pEnd; pure (hm, ms, desired, req)).run' rest with
+      | some (hm, ms, desired, req) =>
+        let a : AllocReq := { req := req, desired := desired, npcie := 0, required := [], preferred := [] }
+        let d' := applyRo d (.filter (if hm then some ms else none) a)
+        let v := d'.cyc.verdicts.getLast?.getD false
+        (d', dump d'.node ++ [flagLine d'] ++ [s!"filter {if v then 1 else 0}"])
       | none => (d, ["bad-op"])
     else (d, ["bad-op"])
   | [] => (d, ["bad-op"])
